@@ -479,6 +479,7 @@ hx_job_build(IMB_MGR *mgr, const hx_spec *sp, int id, hx_job *j)
         j->sp = *sp;
         j->id = id;
         j->ga_first = ga_count();
+        ga_tl_n = 0;
         hx_rng r;
         hx_seed(&r, sp->seed);
         IMB_JOB *t = &j->tmpl;
@@ -801,6 +802,8 @@ hx_job_build(IMB_MGR *mgr, const hx_spec *sp, int id, hx_job *j)
                 break;
         }
         j->ga_last = ga_count();
+        j->ngobj = ga_tl_n < 32 ? ga_tl_n : 32;
+        memcpy(j->gobj, ga_tl_idx, sizeof(int) * (size_t) j->ngobj);
         return 0;
 }
 
